@@ -217,7 +217,29 @@ def walk_path(body: list[ast.stmt], valuation: dict[str, bool]) -> tuple[list[as
 
 
 # ---------------------------------------------------------------------------------------------- alias-insensitive views
-def pure_locals(func: ast.AST) -> dict[str, ast.expr]:
+def _pure_with_displays(e: ast.AST) -> bool:
+    """_is_pure, additionally accepting list displays of pure elements (a rule that only READS the expression does not care
+    that each evaluation builds a new list; the program rewrite of the front-end does, and never uses this)."""
+    from . import canon
+
+    if isinstance(e, ast.List):
+        return all(_pure_with_displays(x) for x in e.elts)
+    if isinstance(e, ast.Starred):
+        return _pure_with_displays(e.value)
+    if isinstance(e, (ast.ListComp, ast.GeneratorExp)):
+        return _pure_with_displays(e.elt) and all(isinstance(g.target, ast.Name) and _pure_with_displays(g.iter) and all(_pure_with_displays(c) for c in g.ifs) for g in e.generators)
+    if isinstance(e, ast.Call) and isinstance(e.func, ast.Name) and e.func.id in ("range", "chain", "list", "tuple", "len") and not e.keywords:
+        return all(_pure_with_displays(a) for a in e.args)
+    if isinstance(e, ast.Compare):
+        return _pure_with_displays(e.left) and all(_pure_with_displays(c) for c in e.comparators)
+    if isinstance(e, ast.BinOp):
+        return _pure_with_displays(e.left) and _pure_with_displays(e.right)
+    if isinstance(e, ast.Tuple):
+        return all(_pure_with_displays(x) for x in e.elts)
+    return canon._is_pure(e)
+
+
+def pure_locals(func: ast.AST, displays: bool = False) -> dict[str, ast.expr]:
     """Locals of `func` bound exactly once, by a plain assignment, to a pure expression (names, attributes, subscripts,
     constants, operators, type()/len()/slice()/isinstance())."""
     from . import canon
@@ -227,19 +249,19 @@ def pure_locals(func: ast.AST) -> dict[str, ast.expr]:
     params = set(canon._params(func))
     for n in walk_no_nested(func):
         tgt = canon._single_name_target(n) if isinstance(n, ast.stmt) else None
-        if tgt is not None and tgt.id not in params and len(bound.get(tgt.id, [])) == 1 and canon._is_pure(n.value):
+        if tgt is not None and tgt.id not in params and len(bound.get(tgt.id, [])) == 1 and (_pure_with_displays(n.value) if displays else canon._is_pure(n.value)):
             out[tgt.id] = n.value
     return out
 
 
-def expanded(func: ast.AST, e: ast.AST, depth: int = 6) -> str:
+def expanded(func: ast.AST, e: ast.AST, depth: int = 6, displays: bool = False) -> str:
     """Normalised text of `e` with the pure single-assignment locals of `func` replaced by their definitions, so that a rule
     comparing it against an expected expression does not depend on which sub-expressions happen to be named."""
     import copy as _copy
 
     from . import canon
 
-    pl = pure_locals(func)
+    pl = pure_locals(func, displays)
     cur = _copy.deepcopy(e)
     for _ in range(depth):
         names = {n.id for n in ast.walk(cur) if isinstance(n, ast.Name) and isinstance(n.ctx, ast.Load)} & set(pl)
@@ -424,3 +446,107 @@ def argument_sources(repo: Repo, fi: FuncInfo, param: str, depth: int = 2) -> se
             else:
                 out.add(txt)
     return out
+
+
+def emptiness_normal(test: ast.AST) -> ast.AST:
+    """`len(E) == 0` / `0 == len(E)` / `not len(E)` / `len(E) < 1` -> `not E`; `len(E) != 0` / `> 0` / `>= 1` -> `E`.  For a
+    container the two spellings are the same test; NOT a program rewrite (a tensor's truth value is not its length) — used
+    where a rule compares or keys a test whose subject it knows to be a tuple / list / dict."""
+    import copy as _copy
+
+    class T(ast.NodeTransformer):
+        def visit_Compare(self, n):
+            self.generic_visit(n)
+            if len(n.ops) != 1:
+                return n
+            l, op, r = n.left, n.ops[0], n.comparators[0]
+            is_len = lambda x: isinstance(x, ast.Call) and isinstance(x.func, ast.Name) and x.func.id == "len" and len(x.args) == 1 and not x.keywords
+            const = lambda x, v: isinstance(x, ast.Constant) and type(x.value) is int and x.value == v
+            if is_len(r) and not is_len(l):  # mirror: c OP len(E)  ->  len(E) OP' c
+                mirror = {ast.Eq: ast.Eq, ast.NotEq: ast.NotEq, ast.Lt: ast.Gt, ast.Gt: ast.Lt, ast.LtE: ast.GtE, ast.GtE: ast.LtE}
+                if type(op) in mirror:
+                    l, r, op = r, l, mirror[type(op)]()
+            if not is_len(l):
+                return n
+            e = l.args[0]
+            empty = (isinstance(op, ast.Eq) and const(r, 0)) or (isinstance(op, ast.Lt) and const(r, 1)) or (isinstance(op, ast.LtE) and const(r, 0))
+            nonempty = (isinstance(op, ast.NotEq) and const(r, 0)) or (isinstance(op, ast.Gt) and const(r, 0)) or (isinstance(op, ast.GtE) and const(r, 1))
+            if empty:
+                return ast.UnaryOp(op=ast.Not(), operand=e)
+            if nonempty:
+                return e
+            return n
+
+        def visit_UnaryOp(self, n):
+            self.generic_visit(n)
+            if isinstance(n.op, ast.Not) and isinstance(n.operand, ast.Call) and isinstance(n.operand.func, ast.Name) and n.operand.func.id == "len" and len(n.operand.args) == 1:
+                return ast.UnaryOp(op=ast.Not(), operand=n.operand.args[0])
+            if isinstance(n.op, ast.Not) and isinstance(n.operand, ast.UnaryOp) and isinstance(n.operand.op, ast.Not):
+                return n.operand.operand
+            return n
+
+    return ast.fix_missing_locations(T().visit(_copy.deepcopy(test)))
+
+
+_DTYPE_METHODS = {"double": "float64", "float": "float32", "half": "float16", "bfloat16": "bfloat16"}
+
+
+def tensor_normal(e: ast.AST) -> ast.AST:
+    """Spelling-independent form of an expression whose `.size/.dim/.to` receivers are TENSORS (the caller knows; not a program
+    rewrite — a DeviceMesh also has `.size(dim)`): `x.size()` -> `x.shape`, `x.size(i)` / `x.size(dim=i)` -> `x.shape[i]`,
+    `x.dim()` / `x.ndimension()` / `len(x.shape)` -> `x.ndim`, `x.double()` -> `x.to(dtype=torch.float64)` (float / half /
+    bfloat16 alike), `x.to(D)` -> `x.to(dtype=D)` for a dtype-valued D, `type(x) == C` -> `type(x) is C`,
+    `torch.zeros((n,), …)` -> `torch.zeros(n, …)`."""
+    import copy as _copy
+
+    def dtype_like(a: ast.AST) -> bool:
+        t = ast.unparse(a)
+        return t.endswith(".dtype") or t.endswith("_dtype") or t == "dtype" or (t.startswith("torch.") and t.split(".")[-1] in {"float64", "float32", "float16", "bfloat16", "double", "float", "half", "int8", "int32", "int64", "long", "bool"})
+
+    class T(ast.NodeTransformer):
+        def visit_Call(self, n: ast.Call):
+            self.generic_visit(n)
+            f = n.func
+            if isinstance(f, ast.Attribute):
+                if f.attr == "size" and not n.args and not n.keywords:
+                    return ast.Attribute(value=f.value, attr="shape", ctx=ast.Load())
+                if f.attr == "size" and ((len(n.args) == 1 and not n.keywords) or (not n.args and len(n.keywords) == 1 and n.keywords[0].arg == "dim")):
+                    idx = n.args[0] if n.args else n.keywords[0].value
+                    return ast.Subscript(value=ast.Attribute(value=f.value, attr="shape", ctx=ast.Load()), slice=idx, ctx=ast.Load())
+                if f.attr in ("dim", "ndimension") and not n.args and not n.keywords:
+                    return ast.Attribute(value=f.value, attr="ndim", ctx=ast.Load())
+                if f.attr in _DTYPE_METHODS and not n.args and not n.keywords:
+                    d = ast.Attribute(value=ast.Name(id="torch", ctx=ast.Load()), attr=_DTYPE_METHODS[f.attr], ctx=ast.Load())
+                    return ast.Call(func=ast.Attribute(value=f.value, attr="to", ctx=ast.Load()), args=[], keywords=[ast.keyword(arg="dtype", value=d)])
+                if f.attr == "to" and len(n.args) == 1 and not n.keywords and dtype_like(n.args[0]):
+                    return ast.Call(func=f, args=[], keywords=[ast.keyword(arg="dtype", value=n.args[0])])
+                if isinstance(f.value, ast.Name) and f.value.id == "torch" and f.attr in ("zeros", "ones", "empty") and n.args and isinstance(n.args[0], ast.Tuple) and len(n.args[0].elts) == 1:
+                    n.args[0] = n.args[0].elts[0]
+            if isinstance(f, ast.Name) and f.id == "len" and len(n.args) == 1 and isinstance(n.args[0], ast.Attribute) and n.args[0].attr == "shape":
+                return ast.Attribute(value=n.args[0].value, attr="ndim", ctx=ast.Load())
+            return n
+
+        def visit_Attribute(self, n: ast.Attribute):
+            self.generic_visit(n)
+            if n.attr == "double" and isinstance(n.value, ast.Name) and n.value.id == "torch":
+                n.attr = "float64"
+            elif n.attr == "float" and isinstance(n.value, ast.Name) and n.value.id == "torch":
+                n.attr = "float32"
+            return n
+
+        def visit_Compare(self, n: ast.Compare):
+            self.generic_visit(n)
+            if len(n.ops) == 1 and isinstance(n.ops[0], (ast.Eq, ast.NotEq)):
+                is_type = lambda x: isinstance(x, ast.Call) and isinstance(x.func, ast.Name) and x.func.id == "type" and len(x.args) == 1
+                if is_type(n.left) or is_type(n.comparators[0]):
+                    n.ops = [ast.Is() if isinstance(n.ops[0], ast.Eq) else ast.IsNot()]
+            return n
+
+    return ast.fix_missing_locations(T().visit(_copy.deepcopy(e)))
+
+
+def tnorm(e: ast.AST | str) -> str:
+    """Whitespace-normalised text of tensor_normal(e)."""
+    if isinstance(e, str):
+        e = ast.parse(e, mode="eval").body
+    return " ".join(ast.unparse(tensor_normal(e)).split())
